@@ -30,6 +30,17 @@ func gen(tier string, r *lib.Rand, emit func(string)) {
 			}
 		}
 	}
+	// naturally nested trees (depth bounded: the model parser is the un-memoised PEG)
+	deep := 12
+	if tier == "thorough" {
+		deep = 14
+	}
+	for k := 0; k <= deep; k++ {
+		for _, e := range acclib.NestedTrees(k) {
+			emit("print " + script(ast.Statement{Name: "x", Expr: ast.Operand(0)}, ast.Statement{Expr: e}))
+		}
+		emit("fmt " + hex(acclib.DeepSource(k)))
+	}
 	// (b) random deep trees over the full identifier alphabet, large operands and shift amounts
 	for i := 0; i < nrand; i++ {
 		o := &acclib.TreeOpts{MaxIndex: 40, BigNumbers: i%2 == 0, MaxShift: 70, ZeroShift: true}
